@@ -1,7 +1,13 @@
 (* Executable model of jumanji/environments/packing/knapsack (env.py, reward.py, generator.py).
-   Numbers: weights / values / budget are floats in the code; the model works over Z on a dyadic grid
-   (value * 2^k encoded by the harness; + - <= are exact there).  Mirrors the code's algorithm (Impl layer);
-   the declarative rules are [legal], [Feasible] below.  No proofs here (see Proofs/Knapsack.v).          *)
+   Numbers: weights / values / budget are float32 in the code.  Every float32 is dyadic, so the harness sends
+   value * 2^k (an exact integer) and the model works over Z, where + - <= are exact.
+   The ONLY float operation whose result can be inexact in [step] is  remaining_budget - weights[action];
+   it is modelled by an explicit rounding function [rnd]:
+     - [step]            = [step_r] with the identity: exact arithmetic (the idealised rules; exact on dyadic grids)
+     - [step_r rne24]    = IEEE binary32 round-to-nearest-even of the difference (bit-exact on EVERY float32 state
+                           whose values are multiples of 2^-k, k <= 126: no subnormals/overflow are involved)
+   Mirrors the code's algorithm (Impl layer); the declarative rules are [legal], [Feasible], [step_rules] below.
+   No proofs here (see Proofs/Knapsack.v).                                                                   *)
 Require Import JV.Base.Prelude JV.Base.JaxIndex JV.Base.Codec JV.Base.TimeStep.
 
 Record state := mkS { weights : list Z; values : list Z; packed : list bool; budget : Z }.
@@ -21,25 +27,42 @@ Fixpoint dotb (p : list bool) (v : list Z) : Z :=
   | _, _ => 0
   end.
 
+(* IEEE-754 binary32 rounding (round to nearest, ties to even) of an integer, 24 significant bits *)
+Definition rne24_pos (m : Z) : Z :=
+  if m <? 16777216 then m else
+  let p := 2 ^ (Z.log2 m - 23) in
+  let q := m / p in
+  let r := m mod p in
+  (if (p <? 2 * r) || ((2 * r =? p) && Z.odd q) then q + 1 else q) * p.
+Definition rne24 (x : Z) : Z := if x <? 0 then - rne24_pos (- x) else rne24_pos x.
+
 (* is_valid = (remaining_budget >= weights[action]) & ~packed_items[action]   (gathers clamp) *)
 Definition valid (s : state) (a : Z) : bool :=
   (jget 0 (weights s) a <=? budget s) && negb (jget false (packed s) a).
 
-(* _update_state *)
-Definition update (s : state) (a : Z) : state :=
-  mkS (weights s) (values s) (jset (packed s) a true) (budget s - jget 0 (weights s) a).
+(* _update_state : packed_items.at[action].set(True) (scatter drops), budget - weights[action] (gather clamps) *)
+Definition update_r (rnd : Z -> Z) (s : state) (a : Z) : state :=
+  mkS (weights s) (values s) (jset (packed s) a true) (rnd (budget s - jget 0 (weights s) a)).
 
 (* reward.py: SparseReward (sparse = true) / DenseReward (sparse = false) *)
 Definition reward_of (sparse : bool) (s : state) (a : Z) (s' : state) (is_valid is_done : bool) : Z :=
   if sparse then (if is_done && is_valid then dotb (packed s') (values s') else 0)
   else (if is_valid then jget 0 (values s) a else 0).
 
-Definition step (sparse : bool) (s : state) (a : Z) : state * tstep :=
+Definition step_r (rnd : Z -> Z) (sparse : bool) (s : state) (a : Z) : state * tstep :=
   let is_valid := valid s a in
-  let s' := if is_valid then update s a else s in          (* lax.cond(is_valid, _update_state, identity) *)
-  let no_items := negb (existsb (fun b => b) (mask s')) in
+  let s' := if is_valid then update_r rnd s a else s in     (* lax.cond(is_valid, _update_state, identity) *)
+  let no_items := negb (existsb (fun b => b) (mask s')) in  (* ~jnp.any(observation.action_mask) *)
   let is_done := no_items || negb is_valid in
   (s', cond_done 1 is_done [reward_of sparse s a s' is_valid is_done]).
+
+Definition rid (x : Z) : Z := x.
+Definition step : bool -> state -> Z -> state * tstep := step_r rid.
+Definition update : state -> Z -> state := update_r rid.
+
+(* _state_to_observation: three copies and the mask *)
+Definition observe (s : state) : list Z * list Z * list bool * list bool :=
+  (weights s, values s, packed s, mask s).
 
 (* generator as a function of the explicit draws (weights, values) : RandomGenerator.__call__ *)
 Definition init (n total : Z) (w v : list Z) : state * tstep :=
@@ -49,7 +72,7 @@ Definition valid_draw (n sc : Z) (w v : list Z) : bool :=
   (zlen w =? n) && (zlen v =? n) && forallb (fun x => (0 <=? x) && (x <? sc)) w && forallb (fun x => (0 <=? x) && (x <? sc)) v.
 
 (* ---- declarative side ---- *)
-(* item i may be packed: not packed yet and its weight does not exceed the remaining budget *)
+(* item i may be packed: not packed yet and its weight does not exceed the remaining budget (== included) *)
 Definition legal (s : state) (i : Z) : Prop :=
   znth true (packed s) i = false /\ znth 0 (weights s) i <= budget s.
 Definition legal_b (s : state) (i : Z) : bool :=
@@ -61,12 +84,28 @@ Definition Feasible (total : Z) (s : state) : Prop :=
   packed_weight s + budget s = total /\ 0 <= budget s.
 Definition Feasible_b (total : Z) (s : state) : bool :=
   (packed_weight s + budget s =? total) && (0 <=? budget s).
+Definition shape (n : Z) (s : state) : Prop :=
+  zlen (weights s) = n /\ zlen (values s) = n /\ zlen (packed s) = n.
 Definition shape_b (n : Z) (s : state) : bool :=
   (zlen (weights s) =? n) && (zlen (values s) =? n) && (zlen (packed s) =? n).
 (* declared observation ranges (spec: weights, values in [0,1]) on the grid of scale sc *)
 Definition ranges_b (sc : Z) (s : state) : bool :=
   forallb (fun x => (0 <=? x) && (x <=? sc)) (weights s) && forallb (fun x => (0 <=? x) && (x <=? sc)) (values s).
 Definition unpacked (s : state) : Z := count_if negb (packed s).
+(* nothing more fits: the packing is maximal *)
+Definition maximal_b (n : Z) (s : state) : bool := forallb (fun i => negb (legal_b s i)) (zrange n).
+
+(* the published rules, stated with plain in-range list operations (no JAX index semantics):
+   pack a legal item; an illegal choice ends the episode with reward 0 and changes nothing;
+   the episode also ends when nothing more fits *)
+Definition pack (s : state) (i : Z) : state :=
+  mkS (weights s) (values s) (zupd i true (packed s)) (budget s - znth 0 (weights s) i).
+Definition step_rules (n : Z) (sparse : bool) (s : state) (i : Z) : state * tstep :=
+  if legal_b s i then
+    let s' := pack s i in
+    if maximal_b n s' then (s', termination 1 [if sparse then packed_value s' else znth 0 (values s) i])
+    else (s', transition 1 [if sparse then 0 else znth 0 (values s) i])
+  else (s, termination 1 [0]).
 
 (* ---- wire format ---- *)
 Definition dec_state (n : Z) (l : list Z) : state * list Z :=
@@ -77,13 +116,20 @@ Definition dec_state (n : Z) (l : list Z) : state * list Z :=
   (mkS w v (bools p) b, l).
 Definition enc_out (s : state) : list Z := unbools (packed s) ++ [budget s] ++ unbools (mask s).
 
-(* in: n, sparse, state(weights,values,packed,budget), action
+(* in: n, float32 (1: round the budget like binary32, 0: exact), sparse, state(weights,values,packed,budget), action
    out: packed', budget', mask', step_type, reward, discount *)
 Definition knapsack_step_io (l : list Z) : list Z :=
+  let (n, l) := take1 l in let (fl, l) := take1 l in let (sp, l) := take1 l in
+  let (s, l) := dec_state n l in let (a, _) := take1 l in
+  let (s', t) := step_r (if z2b fl then rne24 else rid) (z2b sp) s a in enc_out s' ++ enc_ts t.
+(* @export knapsack_step_io *)
+
+(* the declarative rules, same wire format (without the rounding flag) *)
+Definition knapsack_rules_io (l : list Z) : list Z :=
   let (n, l) := take1 l in let (sp, l) := take1 l in
   let (s, l) := dec_state n l in let (a, _) := take1 l in
-  let (s', t) := step (z2b sp) s a in enc_out s' ++ enc_ts t.
-(* @export knapsack_step_io *)
+  let (s', t) := step_rules n (z2b sp) s a in enc_out s' ++ enc_ts t.
+(* @export knapsack_rules_io *)
 
 (* in: n, total, sc, weights draw, values draw -> reset state (packed, budget, mask), timestep, valid_draw *)
 Definition knapsack_init_io (l : list Z) : list Z :=
@@ -93,14 +139,22 @@ Definition knapsack_init_io (l : list Z) : list Z :=
 (* @export knapsack_init_io *)
 
 (* verified checkers on IMPLEMENTATION states.  in: n, total, sc, state, mask(n)
-   out: [mask = legal for every item; Feasible; shapes; declared ranges; unpacked count] *)
+   out: [mask = legal for every item; Feasible (exact); 0 <= budget; shapes; declared ranges;
+         unpacked count; packed value; packed weight; nothing more fits] *)
 Definition knapsack_check_io (l : list Z) : list Z :=
   let (n, l) := take1 l in let (total, l) := take1 l in let (sc, l) := take1 l in
   let (s, l) := dec_state n l in let (m, _) := taken n l in
   [ b2z (list_eqb Bool.eqb (bools m) (map (legal_b s) (zrange n)));
     b2z (Feasible_b total s);
+    b2z (0 <=? budget s);
     b2z (shape_b n s);
     b2z (ranges_b sc s);
     unpacked s;
-    packed_value s ].
+    packed_value s;
+    packed_weight s;
+    b2z (maximal_b n s) ].
 (* @export knapsack_check_io *)
+
+(* the rounding function alone: in: x -> rne24 x  (validated against numpy float32 by the harness) *)
+Definition knapsack_rne_io (l : list Z) : list Z := map rne24 l.
+(* @export knapsack_rne_io *)
